@@ -88,6 +88,7 @@ FUEL = {
 BUILTIN_ERR = {"TypeError": "TypeErr", "ValueError": "ValueErr", "LookupError": "LookupErr", "KeyError": "KeyErr",
                "IndexError": "IndexErr", "AttributeError": "AttrErr", "AssertionError": "AssertErr"}
 CHARS = {"0": "C0", "1": "C1", "b": "Cb", "-": "Cminus"}
+STRNORM = {"lower": "SLower", "casefold": "SCasefold"}
 TAXA_MUTATORS = ("append", "remove", "clear", "reverse", "sort")
 BINOPS = {ast.LShift: "py_lshift", ast.RShift: "py_rshift", ast.BitAnd: "py_band", ast.BitOr: "py_bor",
           ast.Add: "py_add", ast.Sub: "py_sub"}
@@ -336,7 +337,7 @@ class FnCompiler(object):
             if e.attr == "label":
                 return self.cps(e.value, lambda v: self.bind("(py_attr_label w %s)" % v, k))
             if e.attr == "lower_cased_label":
-                return self.cps(e.value, lambda v: self.bind("(py_attr_lower_cased_label lower w %s)" % v, k))
+                return self.cps(e.value, lambda v: self.bind("(py_Taxon_lower_cased_label w %s)" % v, k))
             raise Unsupported("%s: attribute %s" % (info.name, e.attr))
         if isinstance(e, ast.Compare):
             if len(e.ops) != 1:
@@ -496,10 +497,10 @@ class FnCompiler(object):
                 return self.cps(e.args[0], lambda v: self.bind("(py_escape_nexus_token %s)" % v, k))
             raise Unsupported("%s: call of %s" % (info.name, f.id))
         if isinstance(f, ast.Attribute):
-            # str(x).lower()
-            if (f.attr == "lower" and not e.args and not e.keywords and isinstance(f.value, ast.Call)
+            # str(x).lower() / str(x).casefold()
+            if (f.attr in STRNORM and not e.args and not e.keywords and isinstance(f.value, ast.Call)
                     and isinstance(f.value.func, ast.Name) and f.value.func.id == "str" and len(f.value.args) == 1):
-                return self.cps(f.value.args[0], lambda v: self.bind("(py_str_lower lower %s)" % v, k))
+                return self.cps(f.value.args[0], lambda v: self.bind("(py_str_norm lower casefold %s %s)" % (STRNORM[f.attr], v), k))
             # "<fmt>".format(...): the two renderings
             if f.attr == "format" and isinstance(f.value, ast.Constant) and isinstance(f.value.value, str) and not e.keywords:
                 def join_arg(a, sep):
@@ -830,6 +831,81 @@ def iter_returns_taxa(tree):
     raise Unsupported("TaxonNamespace.__iter__ is not `return iter(self._taxa)`")
 
 
+def taxon_normal_form(tree):
+    """Which str method Taxon.lower_cased_label applies to the member's label, read off
+    Taxon._get_lower_cased_label; also checks the cache discipline that lets the translation ignore
+    the cache: `_label` is assigned only by the `label` setter, which resets the cache, and the cache is
+    otherwise only ever set to None or to <method>(current label)."""
+    cls = None
+    for n in tree.body:
+        if isinstance(n, ast.ClassDef) and n.name == "Taxon":
+            cls = n
+    if cls is None:
+        raise Unsupported("class Taxon not found")
+
+    def body_of(name):
+        fn = find_def(tree, name, "Taxon")
+        return fn, [s for s in fn.body if not (isinstance(s, ast.Expr) and isinstance(s.value, ast.Constant))]
+
+    def is_self_attr(e, attr):
+        return isinstance(e, ast.Attribute) and e.attr == attr and isinstance(e.value, ast.Name) and e.value.id == "self"
+
+    def is_none(e):
+        return isinstance(e, ast.Constant) and e.value is None
+
+    def is_none_test(e, attr):
+        return (isinstance(e, ast.Compare) and len(e.ops) == 1 and isinstance(e.ops[0], ast.Is)
+                and is_self_attr(e.left, attr) and is_none(e.comparators[0]))
+    fn, b = body_of("_get_lower_cased_label")
+    if [a.arg for a in fn.args.args] != ["self"] or len(b) != 3:
+        raise Unsupported("Taxon._get_lower_cased_label: shape")
+    s0, s1, s2 = b
+    if not (isinstance(s0, ast.If) and is_none_test(s0.test, "_label") and not s0.orelse and len(s0.body) == 1
+            and isinstance(s0.body[0], ast.Return) and is_none(s0.body[0].value)):
+        raise Unsupported("Taxon._get_lower_cased_label: first statement")
+    if not (isinstance(s1, ast.If) and is_none_test(s1.test, "_lower_cased_label") and not s1.orelse and len(s1.body) == 1
+            and isinstance(s1.body[0], ast.Assign) and len(s1.body[0].targets) == 1
+            and is_self_attr(s1.body[0].targets[0], "_lower_cased_label")):
+        raise Unsupported("Taxon._get_lower_cased_label: second statement")
+    v = s1.body[0].value
+    if not (isinstance(v, ast.Call) and not v.args and not v.keywords and isinstance(v.func, ast.Attribute)
+            and isinstance(v.func.value, ast.Call) and isinstance(v.func.value.func, ast.Name) and v.func.value.func.id == "str"
+            and len(v.func.value.args) == 1 and is_self_attr(v.func.value.args[0], "_label") and v.func.attr in STRNORM):
+        raise Unsupported("Taxon._get_lower_cased_label: the cached value is not str(self._label).lower()/.casefold()")
+    method = v.func.attr
+    if not (isinstance(s2, ast.Return) and is_self_attr(s2.value, "_lower_cased_label")):
+        raise Unsupported("Taxon._get_lower_cased_label: return")
+    fn, b = body_of("_get_label")
+    if not (len(b) == 1 and isinstance(b[0], ast.Return) and is_self_attr(b[0].value, "_label")):
+        raise Unsupported("Taxon._get_label: shape")
+    fn, b = body_of("_set_label")
+    if not ([a.arg for a in fn.args.args] == ["self", "v"] and len(b) == 2
+            and isinstance(b[0], ast.Assign) and len(b[0].targets) == 1 and is_self_attr(b[0].targets[0], "_label")
+            and isinstance(b[0].value, ast.Name) and b[0].value.id == "v"
+            and isinstance(b[1], ast.Assign) and len(b[1].targets) == 1 and is_self_attr(b[1].targets[0], "_lower_cased_label")
+            and is_none(b[1].value)):
+        raise Unsupported("Taxon._set_label does not reset the lower-cased cache")
+    props = {}
+    for n in cls.body:
+        if (isinstance(n, ast.Assign) and len(n.targets) == 1 and isinstance(n.targets[0], ast.Name)
+                and isinstance(n.value, ast.Call) and isinstance(n.value.func, ast.Name) and n.value.func.id == "property"):
+            props[n.targets[0].id] = [a.id if isinstance(a, ast.Name) else None for a in n.value.args]
+    if props.get("label") != ["_get_label", "_set_label"] or props.get("lower_cased_label") != ["_get_lower_cased_label"]:
+        raise Unsupported("Taxon.label / Taxon.lower_cased_label are not the expected properties")
+    for f in cls.body:
+        if not isinstance(f, ast.FunctionDef):
+            continue
+        for n in ast.walk(f):
+            if isinstance(n, (ast.Assign, ast.AugAssign)):
+                for t in (n.targets if isinstance(n, ast.Assign) else [n.target]):
+                    if is_self_attr(t, "_label") and f.name != "_set_label":
+                        raise Unsupported("Taxon.%s assigns _label without resetting the cache" % f.name)
+                    if is_self_attr(t, "_lower_cased_label") and f.name != "_get_lower_cased_label" and not (
+                            isinstance(n, ast.Assign) and is_none(n.value)):
+                        raise Unsupported("Taxon.%s writes the lower-cased cache" % f.name)
+    return method
+
+
 def generate(repo):
     src = os.path.join(repo, "src", "dendropy")
     files = {"tm": os.path.join("datamodel", "taxonmodel.py"), "np": os.path.join("dataio", "nexusprocessing.py"),
@@ -852,7 +928,13 @@ def generate(repo):
            "Import ListNotations.",
            "Open Scope Z_scope.", "",
            "Section Namespace.",
-           "Variable lower : lbl -> lbl.", ""]
+           "Variable lower : lbl -> lbl.",
+           "Variable casefold : lbl -> lbl.", "",
+           "(* Taxon._get_lower_cased_label: the normal form cached for a member's label (the cache itself is",
+           "   not represented: the label setter resets it, nothing else writes it - checked by the generator) *)",
+           "Definition member_normal_form : strnorm := %s." % STRNORM[taxon_normal_form(trees["tm"])],
+           "Definition py_Taxon_lower_cased_label (w : world) (v_self : pyval) : res pyval :=",
+           "  (do l__ <- py_attr_label w v_self ;; py_str_norm lower casefold member_normal_form l__).", ""]
     for name in comp.order():
         out.append(comp.function(infos[name]))
     out.append("End Namespace.")
